@@ -151,7 +151,20 @@ func checkLineCounter(c *Ctx, p *core.Prog, rule string) {
 	for _, i := range incs {
 		key := "tokenizeStream: line increment"
 		if underNewline(i.Block()) {
-			c.R.OK(rule, key+" under the newline test", p.Pos(i.Pos()), "executed only when the consumed rune is '\\n'")
+			// the rune that is compared with '\n' must be the decoded rune itself, not a rewritten value
+			direct := false
+			for _, f := range core.FactsAt(i.Block()) {
+				if isNewlineTest(f.Cond) && f.Truth {
+					x := f.Cond.(*ssa.BinOp).X
+					if ex, ok := x.(*ssa.Extract); ok && ex.Index == 0 {
+						if dc, ok := ex.Tuple.(*ssa.Call); ok && core.StaticCalleeName(&dc.Call) == "unicode/utf8.DecodeRune" {
+							direct = true
+						}
+					}
+				}
+			}
+			c.R.Check(direct, rule, key+" under the newline test on the decoded rune", p.Pos(i.Pos()), "executed only when the rune just decoded is '\\n'",
+				"the value compared with '\\n' is not the rune that was decoded (it can have been rewritten from another character, e.g. '\\r'): a line break is counted for a rune that does not end a physical line, so CRLF input gets different line numbers")
 			continue
 		}
 		// deferred increment: guarded by a boolean flag that is cleared on the same path
